@@ -65,7 +65,7 @@ func newReader(blobs storage.Store, hash Key, leafSize uint32, opts ...ReaderOpt
 		if err != nil {
 			return nil, err
 		}
-		c.lruLatch = &sync.Mutex{}
+		c.lruLatch = &simLock{}
 	}
 
 	if c.leafTruncation {
@@ -154,7 +154,7 @@ type chunkReader struct {
 	withPrefetch  bool
 	maxFetchAhead int
 	fetching      map[int]fetch // a map of leaf indices currently being fetched by ReadAt
-	fetchingLatch sync.Mutex
+	fetchingLatch simLock       // (a sync.Mutex, see simyield.go)
 	fetchC        chan fetch
 	fetcherWg     sync.WaitGroup
 	prefetchDoneC chan struct{}
@@ -511,6 +511,7 @@ func addToCacheFunc(r *chunkReader) func(Key, LeafBuffer) {
 		if buffer == nil {
 			return
 		}
+		simYield("reader-add-to-cache")
 		alreadyContained, _ := r.lru.ContainsOrAdd(r.pather(key), buffer)
 		if alreadyContained {
 			// attention: we should only release buffers who where not already in the cache
@@ -613,6 +614,7 @@ func (r *chunkReader) ReadAt(data []byte, off int64) (readBytes int, err error) 
 			}
 		}
 
+		simYield("readat-leaf-pinned")
 		if leaf := buffer.Bytes(); offset < int64(len(leaf)) {
 			readBytes += copy(data[readBytes:], leaf[offset:])
 		}
